@@ -604,8 +604,8 @@ def c07(run):
         with open(scen, "a") as f, open(scen3) as g:
             f.write(g.read())
     else:
-        s = run.seed % 12
-        total, kept = _sample(scen, lambda k, r: k % 12 == s)
+        s = run.seed % 16
+        total, kept = _sample(scen, lambda k, r: k % 16 == s or len(r["prefix"]) == 0 or (len(r["prefix"]) == 1 and k % 4 == s % 4))
         run.extra["quick_sample"] = "%d of %d generated histories" % (kept, total)
     out, info = _drive(run, "manager", verb="replay", sub="replay", extra=["--scen", scen], timeout=3000)
     out2, info2 = _drive(run, "manager", sub="random")
